@@ -340,8 +340,9 @@ def _check_exceptions(ctx, prog, A):
     # case that stores it: approximated structurally: every block loading stored_crc is dominated by ... (done in C15)
     pf = prog.func('parse', 'parse')
     Pp = A.cg.prov(pf)
-    sw = [i for i in pf.insns() if i.op == 'switch']
-    ctx.require(len(sw) == 1, 'parse(): expected one switch')
+    _lp = cfg.loops(pf)
+    sw = [i for i in pf.insns() if i.op == 'switch' and any(i.block.name in body for body in _lp.values())]
+    ctx.require(len(sw) == 1, 'parse(): expected one state switch inside the word loop')
     cases = {v: t for v, t in sw[0].extra['cases']}
     store_states = set()
     load_states = set()
